@@ -1,25 +1,26 @@
-/* C18 finding mpart_cd_file — use after free + double free of part->file after a failed file-name allocation (multipart C-D)
+/* C18 finding mpart_params — double free of multipart text-part names/values owned by both the multipart parser and the transaction
  *
  * Build (from anywhere):
  *   gcc -g -fsanitize=address,undefined -I/repo -I/repo/htp -Wl,--wrap=malloc,--wrap=calloc,--wrap=realloc,--wrap=strdup \
- *       /verif/findings/c18_mpart_cd_file.c /repo/htp/*.c /repo/htp/lzma/*.c -lz -o /var/tmp/c18_mpart_cd_file
- * Run:  /var/tmp/c18_mpart_cd_file          (exit status != 0 and an AddressSanitizer report = defect present;
+ *       /verif/findings/c18_mpart_params.c /repo/htp/*.c /repo/htp/lzma/*.c -lz -o /var/tmp/c18_mpart_params
+ * Run:  /var/tmp/c18_mpart_params      (exit status != 0 and an AddressSanitizer report = defect present;
  *                                       "sweep complete, no memory error" and exit 0 = fixed)
  *
  * What it does: the library's allocator calls are wrapped; for k = 1, 2, 3, ... the scenario below is run once with
  * exactly the k-th allocation after the arming point failing (one single allocation failure per run, as C18 states),
  * then parser and configuration are destroyed.  The sweep ends when a run needed fewer than k allocations.
  *
- * htp_mpart_part_parse_c_d (htp/htp_multipart.c:256-260): when bstr_dup_mem for the file name fails, part->file is
- * freed but the field keeps the stale pointer; the part is already in the parser's list, so htp_mpart_part_destroy
- * (htp/htp_multipart.c:480-489, via htp_mpartp_destroy <- htp_tx_destroy_incomplete) reads part->file->filename and
- * part->file->tmpname from freed memory, frees what it finds there and frees part->file a second time.
- * Reached from the wire: a multipart/form-data part with a filename= parameter under memory pressure.
- * STATUS: repaired in /repo by commit e20b396 ("clear part->file after freeing it ...") while the C18 units were being written;
- * on the repaired tree this program prints "sweep complete, no memory error".  On the tree before e20b396 it stops with
- * heap-use-after-free in htp_mpart_part_destroy (htp_multipart.c:481) / double free (:488), see notes/c18.md.
- * Proof unit: c18_mpart_cd (units/c18_alloc.py), no KNOWN_F macro needed any more; the mutant that removes the repair is killed.
- * Minimal fix (applied): `part->file = NULL;` after `free(part->file);`.
+ * htp_ch_multipart_callback_request_body_data (htp/htp_content_handlers.c, loop over body->parts at end of body): every TEXT
+ * part's name/value pointers are copied into a new htp_param_t in tx->request_params; the parser is told that it no
+ * longer owns them (gave_up_data = 1) only AFTER the loop.  If the calloc of a later htp_param_t (or htp_tx_req_add_param)
+ * fails, the function returns HTP_ERROR with gave_up_data == 0 and the earlier parts shared: htp_tx_destroy_incomplete
+ * frees them through htp_mpartp_destroy -> htp_mpart_part_destroy (htp/htp_multipart.c:493-494) and again in its parameter
+ * loop (htp/htp_transaction.c:165-166).  Reached from the wire: a multipart/form-data body with two or more text parts
+ * under memory pressure, with the multipart parser registered.  Same pattern as finding c18_urlenc_params.
+ * Proof unit: none (found by the native sweep while writing the C18 units; the urlencoded twin is unit c18_urlenc_body).
+ * Proposed minimal fix: set `tx->request_mpartp->gave_up_data = 1;` before each of the two `return HTP_ERROR;` inside that
+ * loop (the names/values of parts not yet moved then leak instead of the moved ones being freed twice), or roll the moved
+ * parameters back.
  */
 #include <stdio.h>
 #include <stdlib.h>
@@ -35,7 +36,7 @@ void *__wrap_calloc(size_t a, size_t b) { if (FAIL_NOW()) return NULL; return __
 void *__wrap_realloc(void *p, size_t n) { if (FAIL_NOW()) return NULL; return __real_realloc(p, n); }
 char *__wrap_strdup(const char *s) { if (FAIL_NOW()) return NULL; return __real_strdup(s); }
 
-static const char REQ[] = "POST /m HTTP/1.1\r\nHost: h\r\nContent-Type: multipart/form-data; boundary=BB\r\nContent-Length: 85\r\n\r\n" "--BB\r\nContent-Disposition: form-data; name=\"file\"; filename=\"a.txt\"\r\n\r\nDATA\r\n--BB--\r\n";
+static const char REQ[] = "POST /m HTTP/1.1\r\nHost: h\r\nContent-Type: multipart/form-data; boundary=BB\r\nContent-Length: 173\r\n\r\n--BB\r\nContent-Disposition: form-data; name=\"f1\"\r\n\r\nv1\r\n--BB\r\nContent-Disposition: form-data; name=\"f2\"\r\n\r\nv2\r\n--BB\r\nContent-Disposition: form-data; name=\"f3\"\r\n\r\nv3\r\n--BB--\r\n";
 static void run(void) {
   htp_cfg_t *cfg = htp_config_create();
   if (cfg == NULL) return;
@@ -57,12 +58,12 @@ static void run(void) {
 int main(int argc, char **argv) {
   long k0 = argc > 1 ? atol(argv[1]) : 1;
   for (long k = k0; ; k++) {
-    fprintf(stderr, "c18_mpart_cd_file: failing allocation #%ld after the arming point\n", k);
+    fprintf(stderr, "c18_mpart_params: failing allocation #%ld after the arming point\n", k);
     g_count = 0; g_fail_at = k; g_armed = 0;
     run();
     g_armed = 0;
     if (g_count < k) break;
   }
-  fprintf(stderr, "c18_mpart_cd_file: sweep complete, no memory error\n");
+  fprintf(stderr, "c18_mpart_params: sweep complete, no memory error\n");
   return 0;
 }
